@@ -169,6 +169,72 @@ CHECKS = [
      'technique': 'PBT against a reference SOCKS parser and a reference '
                   'permission predicate; stream-equality oracles on real '
                   'sockets; differential interop with OpenSSH'},
+    {'id': 'C12', 'memwire': True,
+     'text': 'SFTPClient get/put/copy/mget/mput/mcopy and SFTPClientFile '
+             'read/write/seek/read_parallel programs against a framing-level '
+             'MODEL server following a generated reply plan (completion order '
+             'permutations, short reads, per-block error statuses, early EOF, '
+             'hole layouts, limits/copy-data/ranges extensions, versions 3-6) '
+             'for (block_size, max_requests) in {1,2,7,64,16384,default} x '
+             '{1,2,3,16,128,default} and sizes around k*bs and k*bs*mr; plus '
+             'asyncssh\'s own SFTP server with really sparse files, and the '
+             'OpenSSH sftp client against an asyncssh listener. Oracle: '
+             'normal return => destination bytes == source bytes; any error '
+             'status or (non-sparse) early EOF => the call raised.',
+     'note': 'Model server executes in arrival order and permutes replies '
+             '(filexfer-02 6.1); file-position semantics after '
+             'explicit-offset calls are undocumented and not asserted.',
+     'technique': 'model-based PBT (reference SFTP server with fault/reply '
+                  'plans) + differential with the OpenSSH sftp client'},
+    {'id': 'C13', 'memwire': True,
+     'text': 'Every filesystem access of the process while serving is '
+             'recorded (audit hook + wrapped stat family) and resolved by an '
+             'independent component-wise resolver: chrooted SFTP server '
+             'driven by raw FXP packets and by the client API with hostile '
+             'path grammars (.., //, empty, long, non-UTF-8, absolute) and '
+             'symlink/rename/hardlink rearrangement sequences; scp -t/-f '
+             'against the same server; recursive SFTPClient.get/mget and '
+             'asyncssh.scp downloads from hostile remote sides (names with '
+             'separators, .., absolute, duplicates, symlink-then-directory). '
+             'Oracle: every access resolves inside the root / destination, '
+             'snapshot of everything outside unchanged, canaries never '
+             'opened.',
+     'note': 'Write-class calls resolving outside the scratch tree are '
+             'refused by the hook (fence); accesses by Python itself '
+             '(imports) filtered by caller frame; POSIX paths only.',
+     'technique': 'PBT over request/listing grammars with a syscall-audit '
+                  'containment oracle'},
+    {'id': 'C15', 'memwire': False,
+     'text': 'Keys are pure functions of the case (embedded primes / '
+             'generated scalars and seeds), so expected numbers are known: '
+             'private export/import over type x format x passphrase x '
+             'cipher x hash x PBE version x comment, public formats, '
+             'multi-key files, certificates; strict independent readers '
+             '(X.690 walker, PROTOCOL.key and PROTOCOL.certkeys parsers, RFC '
+             '4716); PyCA loaders both ways; ssh-keygen -y/-i/-e/-l/-p/-L/-s '
+             'both ways; wrong passphrases refused; corrupt OpenSSH '
+             'containers refused.',
+     'note': 'bcrypt-encrypted OpenSSH keys, sk/X.509/PKCS#11 keys not '
+             'runnable; os.urandom/time shimmed per module for determinism.',
+     'technique': 'round-trip and differential PBT against PyCA, ssh-keygen '
+                  'and independent format parsers'},
+    {'id': 'C16', 'memwire': False,
+     'text': 'Raw signatures for every key type x algorithm: every '
+             'single-byte edit, truncation/extension, algorithm rename, other '
+             'key, other message must fail, cross-verified with '
+             'cryptography; certificates built by an independent encoder or '
+             'the API validated against a reference predicate at boundary '
+             'instants (patched clock), 14 post-signing alterations and '
+             'every single-byte edit refused; SSHSIG creation/validation '
+             'against a model of generated allowed-signers text and against '
+             'ssh-keygen -Y sign/verify/check-novalidate; ssh-keygen -L/-s '
+             'for certificates.',
+     'note': 'Reference side is an own SSH wire codec plus cryptography; '
+             'X.509 and security keys not runnable; one measured OpenSSH '
+             'boundary difference (valid-before instant) excluded from the '
+             'differential and asserted per asyncssh documentation.',
+     'technique': 'exhaustive single-byte mutation + reference-predicate PBT '
+                  '+ differential with ssh-keygen / cryptography'},
 ]
 
 _BUILT = {c['id'] for c in CHECKS}
